@@ -378,8 +378,8 @@ def gen_fail(rng):
     if rng.random() < 0.3 and not burst:
         # a bystander that keeps executing payloads of another flavour: the failure is likely to arrive while such a
         # synchronous cross-flavour call is in flight (the closing runners must not wait for each other)
-        cfl = rng.choice(FLS)
-        tfl = rng.choice([f for f in FLS if f != cfl])
+        cfl, tfl = rng.choice([("trio", "asyncio")] * 3 + [("asyncio", "trio")] * 3 + [("threading", "asyncio"), ("threading", "trio"),
+                                                                                      ("trio", "threading"), ("asyncio", "threading")])
         script = []
         for _ in range(12):
             body = [["step"]] if (tfl == "threading" and cfl != "threading") else [["step"], ["sleep", rng.choice([0.02, 0.05])]]
@@ -941,6 +941,21 @@ def corpus(pid):
                             "helpers": [[["wait_running", 0], ["sleep", 0.15], ["set", "fail"]]],
                             "timeout": 10, "linger": 0.3,
                             "meta": {"family": "fail", "fails": [["p", 0, fl, ["raise", eid]]], "immediate": False}})
+        # a payload fails while a coroutine bystander of the other loop is inside a synchronous cross-flavour execute
+        # (the closing runners must not wait for each other): both directions x a failing asyncio / thread payload
+        for (cfl, tfl) in (("trio", "asyncio"), ("asyncio", "trio")):
+            for ffl in ("asyncio", "threading"):
+                if ffl == cfl:
+                    continue
+                payloads = {"0": {"flavour": cfl, "script": [["execute", 0, k] for k in range(10, 30)] + [["forever"]]},
+                            "1": {"flavour": ffl, "script": [["wait", "fail"], ["raise", 0]]}}
+                for k in range(10, 30):
+                    payloads[str(k)] = {"flavour": tfl, "script": [["step"], ["sleep", 0.03]]}
+                out.append({"runners": [{"accept_delay": 0.05}], "payloads": payloads, "services": {},
+                            "main": [["adopt", 0, 1], ["accept", 0]],
+                            "helpers": [[["wait_running", 0], ["adopt", 0, 0], ["sleep", 0.2], ["set", "fail"]]],
+                            "timeout": 10, "linger": 0.3,
+                            "meta": {"family": "fail", "fails": [["p", 1, ffl, ["raise", 0]]], "immediate": False}})
         # two flavours failing at the same time, adopted from inside another payload
         out.append({"runners": [{"accept_delay": 0.05}],
                     "payloads": {"0": {"flavour": "asyncio", "script": [["wait", "fail"], ["raise", 0]]},
